@@ -3,13 +3,17 @@ import RSV.Spec.Lanes
 # L1: the generated amd64 SIMD kernels as data — instruction AST and a concrete machine semantics
 (core Lean only)
 
-The 600 kernels of `galois_gen_amd64.s` use 21 mnemonics.  This file gives
+The 600 matrix kernels of `galois_gen_amd64.s` use 21 mnemonics; the Leopard butterflies, the xor
+slices and the hand-written `galMul*` kernels of `galois_amd64.s` add legacy-SSE moves and
+logic, `VBROADCASTI128`, `VINSERTI128`, `VPTERNLOGD`, `SUBQ`/`XORQ`/`ANDQ`/`ORQ`/`CMPQ`, `JA`/`JMP`.
+This file gives
 
 * the instruction AST (`Instr`) in Go-assembler operand order (sources first, destination last);
 * a concrete machine: 16 general registers holding 64-bit numbers or pointers `(region, offset)`,
-  32 vector registers of 64 bytes (the X/Y/Z names are views of the same register), the zero flag,
-  and a byte memory split into regions (expanded matrix, the two slice-header arrays, input slices,
-  output slices);
+  32 vector registers of 64 bytes (the X/Y/Z names are views of the same register), the zero and
+  carry flags (`none` = left undefined by the model; a conditional jump on an undefined flag is a
+  fault), and a byte memory split into regions (expanded matrix, tables, the two slice-header
+  arrays, input slices, output slices);
 * the byte-level semantics of every instruction (`stepInstr`), control flow (`step`) and a
   fuel-bounded interpreter (`exec`).  Every access outside a region, every ill-typed operation
   (shifting a pointer, adding two pointers, …) is a fault.
@@ -72,6 +76,28 @@ inductive Instr where
   | vbcast8 (m : Mem) (dst : VReg)
   | affine (imm : Nat) (mat src dst : VReg)
   | affineBcst (imm : Nat) (m : Mem) (src dst : VReg)
+  -- the remaining kernels (Leopard butterflies, xor slices, hand-written galMul*)
+  | movqFP (off : Nat) (dst : Reg)              -- MOVQ name+off(FP), R
+  | movqRR (src dst : Reg)
+  | xorqRR (src dst : Reg)
+  | orqRR (src dst : Reg)
+  | andqImm (imm : Nat) (dst : Reg)
+  | subqImm (imm : Nat) (dst : Reg)
+  | cmpqImm (r : Reg) (imm : Nat)               -- CMPQ R, $imm
+  | ja (l : Nat)
+  | jmp (l : Nat)
+  | vbcast16 (m : Mem) (dst : VReg)             -- VBROADCASTI128
+  | vbcast8FP (off : Nat) (dst : VReg)          -- VBROADCASTF32X2 name+off(FP), Z
+  | vmovRR (src dst : VReg)                     -- VMOVAPS Z, Z
+  | vternlog (imm : Nat) (a b dst : VReg)       -- VPTERNLOGD
+  | vinserti128 (imm : Nat) (x y dst : VReg)
+  | sseLoad (aligned : Bool) (m : Mem) (x : Nat)    -- MOVOU/MOVUPS/MOVOA mem, X
+  | sseStore (aligned : Bool) (x : Nat) (m : Mem)
+  | sseMov (src dst : Nat)                      -- MOVOU/MOVUPS/MOVOA/MOVAPS X, X
+  | ssePxor (src dst : Nat)                     -- PXOR / XORPS
+  | ssePand (src dst : Nat)
+  | ssePshufb (idx dst : Nat)
+  | ssePsrlq (imm : Nat) (dst : Nat)
 deriving DecidableEq, Repr
 
 abbrev Program := List Instr
@@ -83,6 +109,7 @@ inductive Region where
   | matrix | inHdr | outHdr
   | inp (j : Nat)
   | out (i : Nat)
+  | tab (k : Nat)
 deriving DecidableEq, Repr
 
 /-- contents of a general register -/
@@ -100,12 +127,19 @@ structure Env where
   inputs : Nat
   outputs : Nat
   size : Region → Nat
+  /-- the 8-byte argument slots of the Go frame by offset (kernels other than the matrix kernels) -/
+  frame : Nat → Option Val
+  /-- address of a region modulo 2^64 (only its alignment is ever observed) -/
+  base : Region → Nat
 
 structure State where
   pc : Nat
   gp : Reg → Val
   vec : Nat → Nat → Nat
-  zf : Bool
+  /-- zero flag; `none` = undefined -/
+  zf : Option Bool
+  /-- carry flag; `none` = undefined -/
+  cf : Option Bool
   mem : Region → Nat → Nat
 
 /-- regions addressable by vector loads/stores -/
@@ -113,7 +147,10 @@ def Env.isData (env : Env) : Region → Bool
   | .matrix => true
   | .inp j => j < env.inputs
   | .out i => i < env.outputs
+  | .tab _ => true
   | _ => false
+
+def setFlags (s : State) (z c : Option Bool) : State := { s with zf := z, cf := c }
 
 def setGp (s : State) (r : Reg) (v : Val) : State :=
   { s with gp := fun k => if k = r then v else s.gp k }
@@ -121,6 +158,10 @@ def setGp (s : State) (r : Reg) (v : Val) : State :=
 /-- VEX/EVEX write of a vector register: the bytes beyond the operand width are zeroed -/
 def setVec (s : State) (d : VReg) (f : Nat → Nat) : State :=
   { s with vec := fun r k => if r = d.idx then (if k < d.w.bytes then f k else 0) else s.vec r k }
+
+/-- legacy SSE write of an XMM register: 16 bytes, the upper part is kept -/
+def setXmm (s : State) (x : Nat) (f : Nat → Nat) : State :=
+  { s with vec := fun r k => if r = x then (if k < 16 then f k else s.vec r k) else s.vec r k }
 
 /-- legacy SSE `MOVQ reg, Xn`: low 8 bytes from the register, bytes 8..15 zero, upper part kept -/
 def movqX (s : State) (x v : Nat) : State :=
@@ -174,7 +215,7 @@ def shufByte (tab idx : Nat → Nat) (k : Nat) : Nat :=
 def srlqByte (imm : Nat) (src : Nat → Nat) (k : Nat) : Nat :=
   ((pack8 (fun t => src (8 * (k / 8) + t)) >>> imm) >>> (8 * (k % 8))) &&& 255
 
-/-- all instructions except `RET`, `JZ`, `JNZ`; the program counter is handled by `step` -/
+/-- all instructions except `RET` and the jumps; the program counter is handled by `step` -/
 def stepInstr (env : Env) (i : Instr) (s : State) : Option State :=
   match i with
   | .movqFrame a d =>
@@ -190,7 +231,9 @@ def stepInstr (env : Env) (i : Instr) (s : State) : Option State :=
     | some (.inHdr, off) =>
       if off % 24 = 0 ∧ off / 24 < env.inputs then some (setGp s d (.ptr (.inp (off / 24)) 0)) else none
     | some (.outHdr, off) =>
-      if off % 24 = 0 ∧ off / 24 < env.outputs then some (setGp s d (.ptr (.out (off / 24)) 0)) else none
+      if off % 24 = 0 ∧ off / 24 < env.outputs then some (setGp s d (.ptr (.out (off / 24)) 0))
+      else if off % 24 = 8 ∧ off / 24 < env.outputs then some (setGp s d (.num (env.size (.out (off / 24)))))
+      else none
     | _ => none
   | .movqImm imm d => some (setGp s d (.num (imm % M64)))
   | .movqToX src x =>
@@ -200,25 +243,28 @@ def stepInstr (env : Env) (i : Instr) (s : State) : Option State :=
     | _ => none
   | .addqImm imm d =>
     match s.gp d with
-    | .num v => some (setGp s d (.num ((v + imm) % M64)))
-    | .ptr r off => some (setGp s d (.ptr r ((off + imm) % M64)))
+    | .num v => some (setFlags (setGp s d (.num ((v + imm) % M64))) (some ((v + imm) % M64 == 0)) (some (decide (M64 ≤ v + imm))))
+    | .ptr r off => some (setFlags (setGp s d (.ptr r ((off + imm) % M64))) none none)
   | .addqReg src d =>
     match s.gp src, s.gp d with
-    | .num a, .num b => some (setGp s d (.num ((b + a) % M64)))
-    | .num a, .ptr r off => some (setGp s d (.ptr r ((off + a) % M64)))
-    | .ptr r off, .num b => some (setGp s d (.ptr r ((off + b) % M64)))
+    | .num a, .num b => some (setFlags (setGp s d (.num ((b + a) % M64))) (some ((b + a) % M64 == 0)) (some (decide (M64 ≤ b + a))))
+    | .num a, .ptr r off => some (setFlags (setGp s d (.ptr r ((off + a) % M64))) none none)
+    | .ptr r off, .num b => some (setFlags (setGp s d (.ptr r ((off + b) % M64))) none none)
     | _, _ => none
   | .shrqImm imm d =>
     match s.gp d with
-    | .num v => if imm < 64 then some (setGp s d (.num (v >>> imm))) else none
+    | .num v =>
+      if 0 < imm ∧ imm < 64 then
+        some (setFlags (setGp s d (.num (v >>> imm))) (some (v >>> imm == 0)) (some (v.testBit (imm - 1))))
+      else none
     | _ => none
   | .testq a b =>
     match s.gp a, s.gp b with
-    | .num x, .num y => some { s with zf := (x &&& y) == 0 }
+    | .num x, .num y => some (setFlags s (some ((x &&& y) == 0)) (some false))
     | _, _ => none
   | .decq r =>
     match s.gp r with
-    | .num v => some { (setGp s r (.num ((v + M64 - 1) % M64))) with zf := ((v + M64 - 1) % M64) == 0 }
+    | .num v => some (setFlags (setGp s r (.num ((v + M64 - 1) % M64))) (some (((v + M64 - 1) % M64) == 0)) s.cf)
     | _ => none
   | .label _ => some s
   | .vzeroupper =>
@@ -246,9 +292,76 @@ def stepInstr (env : Env) (i : Instr) (s : State) : Option State :=
     match dataAddr env s m 8 with
     | some (r, off) => some (setVec s d (fun k => affineB (fun t => s.mem r (off + t)) (s.vec src.idx k) ^^^ imm))
     | none => none
+  | .movqFP off d =>
+    match env.frame off with
+    | some v => some (setGp s d v)
+    | none => none
+  | .movqRR src d => some (setGp s d (s.gp src))
+  | .xorqRR src d =>
+    if src = d then some (setFlags (setGp s d (.num 0)) (some true) (some false))
+    else match s.gp src, s.gp d with
+      | .num a, .num b => some (setFlags (setGp s d (.num (b ^^^ a))) (some ((b ^^^ a) == 0)) (some false))
+      | _, _ => none
+  | .orqRR src d =>
+    match s.gp src, s.gp d with
+    | .num a, .num b => some (setFlags (setGp s d (.num (b ||| a))) (some ((b ||| a) == 0)) (some false))
+    | _, _ => none
+  | .andqImm imm d =>
+    -- on a pointer only the address bits are observed
+    match s.gp d with
+    | .num v => some (setFlags (setGp s d (.num (v &&& imm))) (some ((v &&& imm) == 0)) (some false))
+    | .ptr r off =>
+      some (setFlags (setGp s d (.num (((env.base r + off) % M64) &&& imm)))
+        (some ((((env.base r + off) % M64) &&& imm) == 0)) (some false))
+  | .subqImm imm d =>
+    match s.gp d with
+    | .num v =>
+      if imm < M64 then
+        some (setFlags (setGp s d (.num ((v + M64 - imm) % M64))) (some (((v + M64 - imm) % M64) == 0)) (some (decide (v < imm))))
+      else none
+    | _ => none
+  | .cmpqImm r imm =>
+    match s.gp r with
+    | .num v => if imm < M64 then some (setFlags s (some (v == imm)) (some (decide (v < imm)))) else none
+    | _ => none
+  | .vbcast16 m d =>
+    match dataAddr env s m 16 with
+    | some (r, off) => some (setVec s d (fun k => s.mem r (off + k % 16)))
+    | none => none
+  | .vbcast8FP off d =>
+    match env.frame off with
+    | some (.num q) => some (setVec s d (fun k => byteAt q (k % 8)))
+    | _ => none
+  | .vmovRR src d => some (setVec s d (s.vec src.idx))
+  | .vternlog imm a b d =>
+    -- only the three-way xor truth table is modelled
+    if imm = 0x96 then some (setVec s d (fun k => s.vec d.idx k ^^^ s.vec b.idx k ^^^ s.vec a.idx k)) else none
+  | .vinserti128 imm x y d =>
+    if imm = 1 ∧ d.w = .y then
+      some (setVec s d (fun k => if k < 16 then s.vec y.idx k else s.vec x.idx (k - 16)))
+    else none
+  | .sseLoad al m x =>
+    match dataAddr env s m 16 with
+    | some (r, off) =>
+      if al = true ∧ (env.base r + off) % 16 ≠ 0 then none
+      else some (setXmm s x (fun k => s.mem r (off + k)))
+    | none => none
+  | .sseStore al x m =>
+    match dataAddr env s m 16 with
+    | some (r, off) =>
+      if al = true ∧ (env.base r + off) % 16 ≠ 0 then none
+      else some (storeVec s r off 16 x)
+    | none => none
+  | .sseMov src d => some (setXmm s d (s.vec src))
+  | .ssePxor src d => some (setXmm s d (fun k => s.vec d k ^^^ s.vec src k))
+  | .ssePand src d => some (setXmm s d (fun k => s.vec d k &&& s.vec src k))
+  | .ssePshufb idx d => some (setXmm s d (shufByte (s.vec d) (s.vec idx)))
+  | .ssePsrlq imm d => some (setXmm s d (srlqByte imm (s.vec d)))
   | .ret => none
   | .jz _ => none
   | .jnz _ => none
+  | .ja _ => none
+  | .jmp _ => none
 
 /-- position of `label l` -/
 def findLabel : Program → Nat → Option Nat
@@ -270,8 +383,21 @@ def step (env : Env) (prog : Program) (s : State) : Outcome :=
   match prog[s.pc]? with
   | none => .fault
   | some .ret => .halt s
-  | some (.jz l) => if s.zf then jump prog s l else .cont { s with pc := s.pc + 1 }
-  | some (.jnz l) => if s.zf then .cont { s with pc := s.pc + 1 } else jump prog s l
+  | some (.jz l) =>
+    match s.zf with
+    | some true => jump prog s l
+    | some false => .cont { s with pc := s.pc + 1 }
+    | none => .fault
+  | some (.jnz l) =>
+    match s.zf with
+    | some true => .cont { s with pc := s.pc + 1 }
+    | some false => jump prog s l
+    | none => .fault
+  | some (.ja l) =>
+    match s.zf, s.cf with
+    | some z, some c => if !z && !c then jump prog s l else .cont { s with pc := s.pc + 1 }
+    | _, _ => .fault
+  | some (.jmp l) => jump prog s l
   | some i =>
     match stepInstr env i s with
     | some s' => .cont { s' with pc := s.pc + 1 }
@@ -324,6 +450,8 @@ inductive Mn where
   | movq | addq | shrq | testq | decq | jz | jnz | ret | vzeroupper | vmovdqu | vmovdqu64 | vpshufb
   | vpxor | vxorpd | vpand | vpsrlq | vpbroadcastb | vbroadcastsd | vbroadcastf32x2
   | vgf2p8affineqb | vgf2p8affineqbBcst
+  | subq | xorq | orq | andq | cmpq | ja | jmp | vbroadcasti128 | vmovaps | vpternlogd | vinserti128
+  | movou | movoa | movaps | pxor | pand | pshufb | psrlq
 deriving DecidableEq
 
 def mnTable : List (List Char × Mn) := [
@@ -347,7 +475,28 @@ def mnTable : List (List Char × Mn) := [
   (['V','B','R','O','A','D','C','A','S','T','S','D'], .vbroadcastsd),
   (['V','B','R','O','A','D','C','A','S','T','F','3','2','X','2'], .vbroadcastf32x2),
   (['V','G','F','2','P','8','A','F','F','I','N','E','Q','B'], .vgf2p8affineqb),
-  (['V','G','F','2','P','8','A','F','F','I','N','E','Q','B','.','B','C','S','T'], .vgf2p8affineqbBcst)]
+  (['V','G','F','2','P','8','A','F','F','I','N','E','Q','B','.','B','C','S','T'], .vgf2p8affineqbBcst),
+  (['S','U','B','Q'], .subq),
+  (['X','O','R','Q'], .xorq),
+  (['O','R','Q'], .orq),
+  (['A','N','D','Q'], .andq),
+  (['C','M','P','Q'], .cmpq),
+  (['J','A'], .ja),
+  (['J','M','P'], .jmp),
+  (['J','E','Q'], .jz),
+  (['V','B','R','O','A','D','C','A','S','T','I','1','2','8'], .vbroadcasti128),
+  (['V','M','O','V','A','P','S'], .vmovaps),
+  (['V','P','T','E','R','N','L','O','G','D'], .vpternlogd),
+  (['V','I','N','S','E','R','T','I','1','2','8'], .vinserti128),
+  (['M','O','V','O','U'], .movou),
+  (['M','O','V','U','P','S'], .movou),
+  (['M','O','V','O','A'], .movoa),
+  (['M','O','V','A','P','S'], .movaps),
+  (['P','X','O','R'], .pxor),
+  (['X','O','R','P','S'], .pxor),
+  (['P','A','N','D'], .pand),
+  (['P','S','H','U','F','B'], .pshufb),
+  (['P','S','R','L','Q'], .psrlq)]
 
 def gpNames : List (List Char) := [
   ['A','X'], ['C','X'], ['D','X'], ['B','X'], ['S','P'], ['B','P'], ['S','I'], ['D','I'],
@@ -378,6 +527,24 @@ def vreg? : List Char → Option VReg
 
 def imm? : List Char → Option Nat
   | '$' :: '0' :: 'x' :: ds => hex? ds
+  | '$' :: ds => dec? ds
+  | _ => none
+
+def isIdentChar (c : Char) : Bool := c.isAlphanum || c = '_'
+
+/-- generic Go frame argument `name+off(FP)`: its offset -/
+def frameOff? (t : List Char) : Option Nat :=
+  match splitOn '+' t with
+  | [name, rest] =>
+    if name.isEmpty || !name.all isIdentChar then none
+    else match splitOn '(' rest with
+      | [d, ['F', 'P', ')']] => dec? d
+      | _ => none
+  | _ => none
+
+def xreg? (t : List Char) : Option Nat :=
+  match vreg? t with
+  | some ⟨.x, k⟩ => some k
   | _ => none
 
 def frame? (t : List Char) : Option FrameArg := lookup t frameTable
@@ -426,7 +593,11 @@ def mkInstr (mn : Mn) (ops : List (List Char)) : Option Instr :=
       | some f, _, _ => some (.movqFrame f d)
       | _, some v, _ => some (.movqImm v d)
       | _, _, some m => some (.movqLoad m d)
-      | _, _, _ => none
+      | _, _, _ =>
+        match frameOff? a, gp? a with
+        | some off, _ => some (.movqFP off d)
+        | _, some s => some (.movqRR s d)
+        | _, _ => none
     | none =>
       match gp? a, vreg? b with
       | some s, some ⟨.x, k⟩ => some (.movqToX s k)
@@ -472,6 +643,68 @@ def mkInstr (mn : Mn) (ops : List (List Char)) : Option Instr :=
     let want : VW := if mn = .vbroadcastsd then .y else .z
     match mem? a, vreg? b with
     | some m, some d => if d.w = want then some (.vbcast8 m d) else none
+    | none, some d =>
+      match frameOff? a with
+      | some off => if d.w = want then some (.vbcast8FP off d) else none
+      | none => none
+    | _, _ => none
+  | .subq, [a, b] =>
+    match imm? a, gp? b with
+    | some v, some d => some (.subqImm v d)
+    | _, _ => none
+  | .andq, [a, b] =>
+    match imm? a, gp? b with
+    | some v, some d => some (.andqImm v d)
+    | _, _ => none
+  | .cmpq, [a, b] =>
+    match gp? a, imm? b with
+    | some r, some v => some (.cmpqImm r v)
+    | _, _ => none
+  | .xorq, [a, b] =>
+    match gp? a, gp? b with
+    | some x, some y => some (.xorqRR x y)
+    | _, _ => none
+  | .orq, [a, b] =>
+    match gp? a, gp? b with
+    | some x, some y => some (.orqRR x y)
+    | _, _ => none
+  | .vbroadcasti128, [a, b] =>
+    match mem? a, vreg? b with
+    | some m, some d => if d.w = .y then some (.vbcast16 m d) else none
+    | _, _ => none
+  | .vmovaps, [a, b] =>
+    match vreg? a, vreg? b with
+    | some x, some d => if sameW x d then some (.vmovRR x d) else none
+    | _, _ => none
+  | .vpternlogd, [a, b, c, e] =>
+    match imm? a, vreg? b, vreg? c, vreg? e with
+    | some v, some x, some y, some d => if sameW x d && sameW y d then some (.vternlog v x y d) else none
+    | _, _, _, _ => none
+  | .vinserti128, [a, b, c, e] =>
+    match imm? a, vreg? b, vreg? c, vreg? e with
+    | some v, some x, some y, some d => if x.w = .x && sameW y d then some (.vinserti128 v x y d) else none
+    | _, _, _, _ => none
+  | .movou, [a, b] | .movoa, [a, b] | .movaps, [a, b] =>
+    match xreg? a, xreg? b, mem? a, mem? b with
+    | some x, some d, _, _ => some (.sseMov x d)
+    | none, some d, some m, _ => if mn = .movaps then none else some (.sseLoad (mn = .movoa) m d)
+    | some x, none, _, some m => if mn = .movaps then none else some (.sseStore (mn = .movoa) x m)
+    | _, _, _, _ => none
+  | .pxor, [a, b] =>
+    match xreg? a, xreg? b with
+    | some x, some d => some (.ssePxor x d)
+    | _, _ => none
+  | .pand, [a, b] =>
+    match xreg? a, xreg? b with
+    | some x, some d => some (.ssePand x d)
+    | _, _ => none
+  | .pshufb, [a, b] =>
+    match xreg? a, xreg? b with
+    | some x, some d => some (.ssePshufb x d)
+    | _, _ => none
+  | .psrlq, [a, b] =>
+    match imm? a, xreg? b with
+    | some v, some d => some (.ssePsrlq v d)
     | _, _ => none
   | .vgf2p8affineqb, [a, b, c, e] =>
     match imm? a, vreg? b, vreg? c, vreg? e with
@@ -501,6 +734,14 @@ def instr? (names : List (List Char)) (t : List Char) : Option (List (List Char)
     | some .jnz =>
       match ops with
       | [l] => let (names, k) := labelId names l; some (names, .jnz k)
+      | _ => none
+    | some .ja =>
+      match ops with
+      | [l] => let (names, k) := labelId names l; some (names, .ja k)
+      | _ => none
+    | some .jmp =>
+      match ops with
+      | [l] => let (names, k) := labelId names l; some (names, .jmp k)
       | _ => none
     | some mn => (mkInstr mn ops).map fun i => (names, i)
     | none => none
